@@ -813,6 +813,53 @@ func (r *vf6Run) doAction(raw json.RawMessage) (act []interface{}, res string, i
 		}
 		res = "ok"
 		info = r.observeView(v, r.scn.Searches)
+	case "viewsearch":
+		// ["viewsearch", view, query, prefetch] : SearchStreams through a view that stays open; with prefetch != 0 all
+		// tags are prefetched for the result and HasTag / AllTags of every result stream are reported
+		v, ok := r.views[num(1)]
+		if !ok {
+			res = "noop"
+			break
+		}
+		q, e := query.Parse(str(2))
+		if e != nil {
+			res = "err:parse"
+			break
+		}
+		opts := []StreamsOption{Limit(1000, 0)}
+		if num(3) != 0 {
+			opts = append(opts, PrefetchAllTags())
+		}
+		obs := []vf6StreamObs{}
+		_, _, _, e = v.SearchStreams(context.Background(), q, func(sc StreamContext) error {
+			o := vf6StreamObs{ID: sc.Stream().ID(), Has: []string{}, Tags: []string{}}
+			if num(3) != 0 {
+				tags, err := sc.AllTags()
+				if err != nil {
+					return err
+				}
+				o.Tags = tags
+				for tn := range v.tagDetails {
+					h, err := sc.HasTag(tn)
+					if err != nil {
+						return err
+					}
+					if h {
+						o.Has = append(o.Has, tn)
+					}
+				}
+				sort.Strings(o.Has)
+			}
+			obs = append(obs, o)
+			return nil
+		}, opts...)
+		if e != nil {
+			res = "err:" + e.Error()
+			break
+		}
+		sort.Slice(obs, func(a, b int) bool { return obs[a].ID < obs[b].ID })
+		res = "ok"
+		info = map[string]interface{}{"streams": obs}
 	case "viewclose":
 		v, ok := r.views[num(1)]
 		if !ok {
